@@ -623,6 +623,12 @@ func (e *Env) evalIndex(x EIndex) (tval, error) {
 	case *types.Slice:
 		w := e.l().sizeOf(tt.Elem())
 		addr := []string{v.C[0], e.vc().elemSlot(v.C[1], i.C[0], w)}
+		if v.St != nil {
+			// old(s)[i]: the element s held in the old state at the index's current value
+			r := e.load(addr, tt.Elem(), v.St)
+			r.St = v.St
+			return r, nil
+		}
 		return e.load(addr, tt.Elem(), e.st), nil
 	case *types.Array:
 		w := e.l().sizeOf(tt.Elem())
